@@ -33,3 +33,14 @@ Qed.
 
 Lemma all_ityp_complete : forall t, In t all_ityp.
 Proof. intros t. destruct t; cbn; tauto. Qed.
+
+(* 5.A-19: every lookup flag name written by explainFlags for IgnoreBaseGlyphs,
+   IgnoreLigatures, IgnoreMarks is a name readLookupFlags maps to the same bit *)
+Lemma flag_names_agree :
+  forallb (fun p => if existsb (N.eqb (fst p)) [2; 4; 8]
+                    then match flag_of_name builder_parseFlags (tl (tl (snd p))) with
+                         | Some v => v =? fst p
+                         | None => false
+                         end
+                    else true) builder_explainFlags = true.
+Proof. vm_compute. reflexivity. Qed.
